@@ -11,6 +11,8 @@ _state = {"installed": False, "feed_calls": None, "hours": None, "G0": {}}
 
 STRATEGIES = ["baseline", "reduced", "feed_only_ruminants"]
 SHAPES = ["zero", "tenth", "half", "ample", "seasonal", "random", "step_down", "grass_only", "feed_only", "exact"]
+# further shapes, thorough tier only
+SHAPES_DEEP = SHAPES + ["spike", "ramp_up", "sparse", "tiny", "huge", "fraction_sweep", "alternating"]
 
 
 def install():
@@ -96,6 +98,28 @@ def supply(shape, N, f0, g0, rnd):
     if shape == "exact":
         # exactly what the unlimited herds take in month 0 (boundary grass = need, grass+feed = need)
         return f0 * one, g0 * one
+    if shape == "spike":
+        k = rnd.randrange(N)
+        a = np.where(np.arange(N) == k, rnd.choice([1, 5, 50]) * tot, 0.0)
+        return a, np.roll(a, rnd.randrange(N)) * rnd.choice([0, 1])
+    if shape == "ramp_up":
+        r = np.arange(N) / max(1, N - 1)
+        return rnd.choice([0.5, 1.5, 3]) * f0 * r, rnd.choice([0.5, 1.5, 3]) * g0 * r
+    if shape == "sparse":
+        m = np.array([1.0 if rnd.random() < 0.25 else 0.0 for _ in range(N)])
+        return 2 * tot * m, 2 * tot * np.array([1.0 if rnd.random() < 0.25 else 0.0 for _ in range(N)])
+    if shape == "tiny":
+        return rnd.choice([1e-12, 1e-9, 1e-6]) * tot * one, rnd.choice([0, 1e-12, 1e-6]) * tot * one
+    if shape == "huge":
+        return rnd.choice([1e3, 1e6]) * tot * one, rnd.choice([1e3, 1e6, 0]) * tot * one
+    if shape == "fraction_sweep":
+        # each month another fraction of what the unlimited herds take: walks every species across its fully-fed boundary
+        fr = np.array([rnd.choice([0, 0.05, 0.25, 0.5, 0.75, 0.9, 0.99, 1.0, 1.01, 1.25]) for _ in range(N)])
+        gr = np.array([rnd.choice([0, 0.25, 0.5, 0.9, 1.0, 1.1]) for _ in range(N)])
+        return f0 * fr, g0 * gr
+    if shape == "alternating":
+        a = np.where(np.arange(N) % 2 == 0, 2.0, rnd.choice([0.0, 0.2]))
+        return tot * a, tot * a[::-1] * rnd.choice([0, 1])
     raise ValueError(shape)
 
 
@@ -109,12 +133,13 @@ def gen_cases(tier, seed, prop):
         per = 4
     else:
         sel = isos + ["WOR"]
-        per = 12
+        per = 51
     k = 0
     for iso in sel:
         for j in range(per):
             strat = STRATEGIES[(k + j) % 3]
-            shape = SHAPES[(k * 3 + j) % len(SHAPES)]
+            shapes = SHAPES if tier == "quick" else SHAPES_DEEP
+            shape = shapes[(k * 3 + j) % len(shapes)]
             cases.append({"kind": "herd", "iso": iso, "strategy": strat, "shape": shape,
                           "N": rnd.choice([120, 120, 72, 48, 12, 24]), "gen_seed": seed * 7919 + k * 31 + j,
                           "with_meat_dict": bool((k + j) % 2), "id": "%s/%s/%s#%d" % (iso, strat, shape, j)})
